@@ -49,7 +49,7 @@ def encLen (n : Nat) : Bytes :=
 
 /-- base-128 digits, least significant first (the `tagbytes` vector of `write_type`) -/
 def le128 (n : Nat) : List Nat :=
-  if h : n = 0 then [] else (n % 128) :: le128 (n / 128)
+  if _h : n = 0 then [] else (n % 128) :: le128 (n / 128)
 termination_by n
 decreasing_by omega
 
